@@ -1,6 +1,6 @@
 (* RangeTask/ProofsProps.v -- the assembled proofs of the Props.v statements that are not a single library lemma *)
 From Verif Require Import Base.Lex RangeTask.Model RangeTask.ProofsOrd RangeTask.ProofsStore RangeTask.ProofsPart
-  RangeTask.ProofsInv RangeTask.ProofsScan RangeTask.ProofsGc RangeTask.ProofsOut RangeTask.ProofsDel RangeTask.ProofsTerm RangeTask.ProofsAsync RangeTask.ProofsVis.
+  RangeTask.ProofsInv RangeTask.ProofsScan RangeTask.ProofsGc RangeTask.ProofsOut RangeTask.ProofsDel RangeTask.ProofsTerm RangeTask.ProofsAsync RangeTask.ProofsVis RangeTask.ModelView RangeTask.ProofsView.
 Open Scope N_scope.
 
 Lemma C14_partition_proof : forall (batch_end : nat -> list N -> list N) fuel s e subs,
@@ -63,4 +63,53 @@ Proof.
   - intros evs pre post. apply run_read_refused.
   - intros pre post. apply run_read_first.
   - intros evs. apply run_read_served.
+Qed.
+
+(* ------------------------------------------------------------------ the theorems over a faithful ScanLock answer *)
+Lemma gc_no_old_lock_v : forall view st0 sp limit s e fuel os st st' tr,
+  faithful_view view ->
+  wf_store st0 -> (0 < limit)%nat -> InvP st0 sp st -> Forall (oracle_ok st0 sp) os ->
+  gc_resolve_range_v view fuel sp limit s e os st = GcOk st' tr ->
+  (forall r, In r st' -> in_range s e (k_key r) = true -> old_lock sp r = false) /\
+  (forall st'', smono st' st'' -> forall r, In r st'' -> in_range s e (k_key r) = true -> old_lock sp r = false).
+Proof. intros view st0 sp limit s e fuel os st st' tr Hf. rewrite (gc_resolve_range_v_eq view Hf). apply gc_no_old_lock. Qed.
+Lemma gc_pass_no_old_lock_v : forall view st0 sp limit fuel tasks st',
+  faithful_view view ->
+  wf_store st0 -> (0 < limit)%nat -> Forall (fun t => Forall (oracle_ok st0 sp) (snd t)) tasks ->
+  gc_pass_v view fuel sp limit tasks st0 = Some st' ->
+  (forall r, In r st' -> covered (map fst tasks) (k_key r) = true -> old_lock sp r = false) /\
+  ((forall k, covered (map fst tasks) k = true) -> st' = resolve_all st0 sp).
+Proof. intros view st0 sp limit fuel tasks st' Hf. rewrite (gc_pass_v_eq view Hf). apply gc_pass_no_old_lock. Qed.
+Lemma gc_outcomes_kept_v : forall view st0 sp limit s e fuel os st st' tr,
+  faithful_view view ->
+  wf_store st0 -> (0 < limit)%nat -> InvP st0 sp st -> Forall (oracle_ok st0 sp) os ->
+  gc_resolve_range_v view fuel sp limit s e os st = GcOk st' tr ->
+  keys st' = keys st0 /\
+  (forall r', In r' st' -> exists r0, In r0 st0 /\ k_key r0 = k_key r' /\
+       (r' = r0 \/ r' = resolve_by_outcome st0 sp r0) /\
+       (in_range s e (k_key r') = true -> r' = resolve_by_outcome st0 sp r0)) /\
+  (forall p t, (forall r l, In r st0 -> k_lock r = Some l -> l_start l = t -> is_pess l = false -> l_primary l = p) ->
+       committed_at st' p t = committed_at st0 p t) /\
+  (s = [] -> e = [] -> st' = resolve_all st0 sp).
+Proof. intros view st0 sp limit s e fuel os st st' tr Hf. rewrite (gc_resolve_range_v_eq view Hf). apply gc_outcomes_kept. Qed.
+
+(* the witness against the untyped answer: tidb#42937 population (pessimistic lock on [1] with a stale primary field,
+   secondary prewrite lock on [2] of the same transaction, its real primary [3] committed at 15) *)
+Definition stale_witness : store :=
+  [ mkRec [1] (Some (mkLock 10 [9] LPess [])) [];
+    mkRec [2] (Some (mkLock 10 [3] LPut [2])) [];
+    mkRec [3] None [mkWrite 10 15 (Some [3])] ].
+Lemma untyped_answer_refuted : exists st0 sp limit os st' tr,
+  wf_store st0 /\ Forall (oracle_ok st0 sp) os /\
+  gc_resolve_range_v untyped_view 20 sp limit [] [] os st0 = GcOk st' tr /\
+  st' <> resolve_all st0 sp /\
+  exists r l c, In r st0 /\ k_lock r = Some l /\ is_pess l = false /\ l_start l <= sp /\
+                committed_at st0 (l_primary l) (l_start l) = Some c /\ committed_at st' (k_key r) (l_start l) = None.
+Proof.
+  exists stale_witness, 50, 4%nat, [mkOracle ([], []) [] [] (Some ([], []))].
+  eexists. eexists. split; [apply wf_storeb_wf; vm_compute; reflexivity|].
+  split; [repeat constructor|]. split; [vm_compute; reflexivity|]. split; [vm_compute; discriminate|].
+  exists (mkRec [2] (Some (mkLock 10 [3] LPut [2])) []), (mkLock 10 [3] LPut [2]), 15.
+  split; [right; left; reflexivity|]. split; [reflexivity|]. split; [reflexivity|]. split; [vm_compute; discriminate|].
+  split; vm_compute; reflexivity.
 Qed.
